@@ -76,6 +76,10 @@ structure World where
   pstores : List (Nat × Txn.P) := []
   /-- swarms of replicas (C04) -/
   swarms : List (Nat × Swarm.S) := []
+  /-- specification bookkeeping for C14: the sync switch per (actor, open document), from the
+  history of acknowledged requests: the first open sets it, further opens can only enable it,
+  set-sync sets it, the last close forgets it -/
+  syncSpec : List ((Nat × Bytes) × Bool) := []
   /-- specification bookkeeping for C14: handles per (actor, document) = opens − releases -/
   handleCounts : List ((Nat × Bytes) × Nat) := []
 
@@ -833,6 +837,22 @@ def step (w : World) (line : String) : World × String :=
           | .close ns, _ => bump w ns (· - 1)
           | .dropReplica ns, _ => bump w ns (· - 1)
           | _, _ => w
+        -- the sync switch according to the history (C14 specification `ssync`)
+        let cnt := fun (ns : Bytes) => (w.handleCounts.lookup (sid, ns)).getD 0
+        let setS := fun (w : World) (ns : Bytes) (b : Option Bool) =>
+          let rest := w.syncSpec.filter (·.1 != (sid, ns))
+          match b with
+          | some b => { w with syncSpec := ((sid, ns), b) :: rest }
+          | none => { w with syncSpec := rest }
+        let w := match a, r with
+          | .openR ns sync _, .ok =>
+            -- `cnt` was already bumped above: 1 means this was the first handle
+            if cnt ns ≤ 1 then setS w ns (some sync)
+            else setS w ns (some (((w.syncSpec.lookup (sid, ns)).getD false) || sync))
+          | .setSync ns b, .ok => setS w ns (some b)
+          | .close ns, .okBool true => setS w ns none
+          | .dropReplica ns, .ok => setS w ns none
+          | _, _ => w
         -- capability history of the actor's store (for the C07 specification `swritable`): a
         -- successful import is recorded, a successful drop forgets the document
         let hist := (w.imports.lookup sid).getD []
@@ -844,6 +864,12 @@ def step (w : World) (line : String) : World × String :=
           | _, _ => w
         (w.setActor sid st', showReply r)
       | none => (w, "no-store")
+    | _, _ => (w, "bad-op")
+  -- specification: the sync switch of an open document according to the request history
+  | ["ssync", sid, ns] =>
+    match parseNat? sid, Bytes.ofHex ns with
+    | some sid, some ns =>
+      (w, match w.syncSpec.lookup (sid, ns) with | some true => "1" | some false => "0" | none => "closed")
     | _, _ => (w, "bad-op")
   -- the store handed back by shutdown: every record of every document
   | ["adump", sid] =>
